@@ -52,6 +52,7 @@ type c17Args struct {
 	Probe    string       `json:"probe"`
 	AltDir   string       `json:"altdir,omitempty"`    // base name of the directory handed to WithWorkingDirectory
 	AltDot   *c17EnvFile  `json:"altdotenv,omitempty"` // its .env
+	LM       bool         `json:"lm,omitempty"`        // also observe ProjectOptions.LoadModel
 	DirLink  bool         `json:"dirlink,omitempty"`   // the project directory is a symbolic link
 	AltLink  bool         `json:"altlink,omitempty"`   // the working directory is a symbolic link
 }
@@ -90,7 +91,7 @@ func c17Yaml(probe string, fi, di int, d c17Doc) string {
 	}
 	if di == 0 {
 		q, _ := json.Marshal(probe)
-		b.WriteString("services:\n  s:\n    image: x\n    labels:\n      probe: " + string(q) + "\n")
+		b.WriteString("services:\n  s:\n    image: x\n    labels:\n      probe: " + string(q) + "\n" + c17ExtrasYaml)
 	} else {
 		b.WriteString(fmt.Sprintf("x-doc: \"%d.%d\"\n", fi, di))
 	}
@@ -112,9 +113,18 @@ var c17NameRe = regexp.MustCompile(`^[a-z0-9][a-z0-9_-]*$`)
 
 type c17Real struct {
 	Ok *struct {
-		Name  string            `json:"name"`
-		Env   map[string]string `json:"env"`
-		Probe string            `json:"probe"`
+		Name     string            `json:"name"`
+		Env      map[string]string `json:"env"`
+		Probe    string            `json:"probe"`
+		Profiles []string          `json:"profiles"`
+		Enabled  map[string]bool   `json:"enabled"`
+		Res      map[string]string `json:"res"`
+		LM       *struct {
+			Name  string            `json:"name"`
+			Probe string            `json:"probe"`
+			Res   map[string]string `json:"res"`
+			Err   string            `json:"err"`
+		} `json:"lm"`
 	} `json:"ok"`
 	Err string `json:"err"`
 	At  string `json:"at"`
@@ -209,6 +219,33 @@ func c17Judge(args, real, drv json.RawMessage) *core.Verdict {
 		}
 		if v, ok := r.Ok.Env["COMPOSE_PROJECT_NAME"]; !ok || v != r.Ok.Name {
 			return core.Fail("name-not-exported", fmt.Sprintf("Project.Name=%q but Environment[COMPOSE_PROJECT_NAME]=%q (set=%v)", r.Ok.Name, v, ok))
+		}
+		// the name decided above is the name of the project *everywhere*: resources without a `name:` of their own
+		for _, k := range c17ResKeys {
+			if got, want := r.Ok.Res[k], r.Ok.Name+"_"+k; got != want {
+				return core.Fail("implicit-resource-name:expected="+c17Source(s, r.Ok.Name)+",got="+c17ResSource(s, got, k),
+					fmt.Sprintf("Project.Name=%q but the unnamed resource %q is called %q (want %q)", r.Ok.Name, k, got, want))
+			}
+		}
+		// the raw-model entry (ProjectOptions.LoadModel) decides the same name and names the resources after it
+		if lm := r.Ok.LM; lm != nil {
+			if lm.Err != "" {
+				return core.Fail("load-model:fails-where-load-project-succeeds", "LoadModel: "+lm.Err)
+			}
+			if lm.Name != r.Ok.Name {
+				return core.Fail("load-model:name-precedence:expected="+c17Source(s, r.Ok.Name)+",got="+c17Source(s, lm.Name), fmt.Sprintf("LoadProject names the project %q, LoadModel %q", r.Ok.Name, lm.Name))
+			}
+			if lm.Probe != r.Ok.Probe {
+				return core.Fail("load-model:interpolation-sees-other-environment", fmt.Sprintf("LoadProject interpolates the probe to %q, LoadModel to %q", r.Ok.Probe, lm.Probe))
+			}
+			for _, k := range c17ResKeys {
+				if got, want := lm.Res[k], lm.Name+"_"+k; got != want {
+					return core.Fail("load-model:implicit-resource-name:got="+c17ResSource(s, got, k), fmt.Sprintf("LoadModel: name %q but the unnamed resource %q is called %q", lm.Name, k, got))
+				}
+			}
+		}
+		if v := c17ProfileOracle(args, r.Ok.Profiles, r.Ok.Enabled, s); v != nil {
+			return v
 		}
 		if s.BadName {
 			return core.Fail("invalid-explicit-name-accepted", "an explicitly requested name that is not [a-z0-9][a-z0-9_-]* was accepted")
